@@ -120,8 +120,9 @@ class WorkflowState(object):
                 for k, v in t["prev"].items():
                     p = self.sequence[v]
                     if p["id"] == task_id and p["route"] == route:
-                        seq.append((i, t))
+                        # Add the task and traverse its subsequent tasks if not already traversed.
                         if (i, t) not in seq:
+                            seq.append((i, t))
                             q.put((t["id"], t["route"]))
 
         return seq
